@@ -44,6 +44,8 @@ MT_COQ = {"single_instance": "MSingle", "centered_instance": "MCentered", "centr
           "bottomup": "MBottomUp"}
 CONVNEXT_TYPES = {"tiny": 0, "small": 1, "base": 2, "large": 3}
 SWINT_TYPES = {"tiny": 0, "small": 1, "base": 2}
+SWINT_ARCH = {"tiny": (96, [2, 2, 6, 2], [3, 6, 12, 24]), "small": (96, [2, 2, 18, 2], [3, 6, 12, 24]),
+              "base": (128, [2, 2, 18, 2], [4, 8, 16, 32])}
 CONVNEXT_ARCH = {"tiny": ([3, 3, 9, 3], [96, 192, 384, 768]), "small": ([3, 3, 27, 3], [96, 192, 384, 768]),
                  "base": ([3, 3, 27, 3], [128, 256, 512, 1024]), "large": ([3, 3, 27, 3], [192, 384, 768, 1536])}
 SELECTORS = ["unet_no_middle_block", "unet_convs_per_block_lt_2", "head_stride_ge_max_stride",
@@ -56,7 +58,7 @@ def pow2s(lo, hi):
     return [2 ** k for k in range(lo, hi + 1)]
 
 
-def gen_heads(rng, n_levels, eff_max):
+def gen_heads(rng, n_levels, eff_max, prefer_b_le=None):
     """model type, parts, edges, backbone output stride, head strides (valid: powers of two,
     backbone stride <= every head stride <= max stride)."""
     mt = rng.choice(MODEL_TYPES)
@@ -64,6 +66,8 @@ def gen_heads(rng, n_levels, eff_max):
     top = n_levels                          # 2**top == effective max stride
     r = rng.random()
     b = top if r < 0.06 else rng.randint(0, max(0, top - 1))
+    if prefer_b_le is not None and rng.random() < 0.7:
+        b = rng.randint(0, prefer_b_le)
     bos = 2 ** b
     def head_stride():
         t = rng.random()
@@ -134,7 +138,7 @@ def gen_tv(rng, bb, light=False):
     else:
         cfg["patch_size"] = [4, 4]
         cfg["window_size"] = [7, 7]
-    mt, parts, edges, bos, os_c, os_p = gen_heads(rng, int(math.log2(eff)), eff)
+    mt, parts, edges, bos, os_c, os_p = gen_heads(rng, int(math.log2(eff)), eff, prefer_b_le=int(math.log2(sps)))
     cfg["output_stride"] = bos
     return {"kind": "model", "bb": bb, "cfg": cfg, "mt": mt, "parts": parts, "edges": edges,
             "os_c": os_c, "os_p": os_p, "inputs": gen_inputs(rng, max_stride, eff, True)}
@@ -378,7 +382,26 @@ def valid_config(c):
             return False
         return cfg["max_stride"] >= 2 and cfg["convs_per_block"] >= 1 and cfg["filters"] >= 1 \
             and F(cfg["filters_rate"]) >= 1
-    return F(cfg["filters_rate"]) == 2 and cfg["stem_patch_stride"] in (2, 4)
+    if not (F(cfg["filters_rate"]) == 2 and cfg["stem_patch_stride"] in (2, 4)):
+        return False
+    if c["bb"] == "convnext":
+        if cfg["stem_patch_kernel"] != 4:
+            return False
+        ds, ch = CONVNEXT_ARCH[cfg["model_type"]] if cfg["model_type"] in CONVNEXT_ARCH else \
+            (CONVNEXT_ARCH["tiny"] if cfg["arch"] is None else (cfg["arch"]["depths"], cfg["arch"]["channels"]))
+        return len(ds) == 4 and len(ch) == 4 and ch[0] > 0 and ch[0] % 4 == 0 and \
+            ch[1:] == [2 * ch[0], 4 * ch[0], 8 * ch[0]]
+    if cfg["patch_size"] != [4, 4]:
+        return False
+    E, ds, nh = SWINT_ARCH[cfg["model_type"]] if cfg["model_type"] in SWINT_ARCH else \
+        (SWINT_ARCH["tiny"] if cfg["arch"] is None else (cfg["arch"]["embed"], cfg["arch"]["depths"], cfg["arch"]["num_heads"]))
+    return len(ds) == 4 and len(nh) == 4 and E > 0 and E % 4 == 0 and \
+        all((E * 2 ** i) % nh[i] == 0 for i in range(4))
+
+
+def in_domain(c, H, W):
+    ms = c["cfg"]["max_stride"]
+    return H > 0 and W > 0 and H % ms == 0 and W % ms == 0
 
 
 def _trunc(q):
@@ -402,7 +425,7 @@ def unet_head_in_mismatch(c):
     r, filt = F(cfg["filters_rate"]), cfg["filters"]
     n = int(math.log2(cfg["max_stride"]))
     b = int(math.log2(cfg["output_stride"]))
-    if not 0 <= b < n:
+    if not 0 <= b < n or min(head_strides(c)) < cfg["output_stride"]:
         return False
     u = n - b
     f = lambda k: _trunc(filt * r ** k)
@@ -418,21 +441,31 @@ def unet_head_in_mismatch(c):
     return False
 
 
+SELECTOR_ORDER = ["unet_no_middle_block", "unet_convs_per_block_lt_2", "patch_stride_lt_min_output_stride",
+                  "head_stride_ge_max_stride", "configured_max_stride_lt_effective", "head_in_channels_rounding"]
+#                  = Shapes.sel_vector:  F17, F18, F20, F41, F42, F43
+
+
+def selector_vector(c, H, W):
+    """The six known-finding selectors (same order as Shapes.sel_vector), each evaluated
+    independently of the others and of the Coq model."""
+    cfg, bb = c["cfg"], c["bb"]
+    eff = eff_max_stride(c)
+    return [
+        bb == "unet" and not cfg["middle_block"],
+        bb == "unet" and cfg["convs_per_block"] < 2,
+        bb != "unet" and cfg["stem_patch_stride"] < min(head_strides(c) + [cfg["output_stride"]]),
+        any(s >= eff for s in head_strides(c)),
+        bb != "unet" and cfg["max_stride"] < eff and not (H % eff == 0 and W % eff == 0),
+        bb == "unet" and unet_head_in_mismatch(c),
+    ]
+
+
 def selector_of(c, H, W):
     """The known-finding selector a failing (configuration, input) falls under, or None."""
-    cfg, bb = c["cfg"], c["bb"]
-    if bb == "unet" and not cfg["middle_block"]:
-        return "unet_no_middle_block"
-    if bb == "unet" and cfg["convs_per_block"] < 2:
-        return "unet_convs_per_block_lt_2"
-    if any(s >= eff_max_stride(c) for s in head_strides(c)):
-        return "head_stride_ge_max_stride"
-    if bb != "unet" and cfg["stem_patch_stride"] < min(head_strides(c) + [cfg["output_stride"]]):
-        return "patch_stride_lt_min_output_stride"
-    if bb != "unet" and cfg["max_stride"] < eff_max_stride(c) and (H % eff_max_stride(c) or W % eff_max_stride(c)):
-        return "configured_max_stride_lt_effective"
-    if bb == "unet" and unet_head_in_mismatch(c):
-        return "head_in_channels_rounding"
+    for name, on in zip(SELECTOR_ORDER, selector_vector(c, H, W)):
+        if on:
+            return name
     return None
 
 
@@ -615,6 +648,18 @@ def check(run: core.Run) -> int:
 
     model = core.coq_eval_sharded(PREAMBLE, [term(c, fixed) for c in cases], "run", RENDER,
                                   shard=120 if thorough else 40, jobs=12)
+    mcases = [c for c in cases if c["kind"] == "model" and c["inputs"]]
+    classes = core.coq_eval_sharded(PREAMBLE, [term(c, fixed) for c in mcases], "classify", "rclassify",
+                                    shard=200 if thorough else 60, jobs=12)
+    sel_diff = []
+    for c, cl in zip(mcases, classes):
+        for (H, W), (v, (dom, sels)) in zip(c["inputs"], cl):
+            mine = (valid_config(c), in_domain(c, H, W), selector_vector(c, H, W))
+            # selectors are only meaningful (and only compared) on valid configurations
+            if (v, dom) != mine[:2] or (v and sels != mine[2]):
+                sel_diff.append(f"input {H}x{W}: coq {(v, dom, sels)} python {mine} case {case_key(c)[:400]}")
+    run.obligation("validity / domain / selector predicates: Shapes.{valid_config,in_domain,sel_vector} (Coq) == harness (Python) "
+                   "on every generated call", not sel_diff, "; ".join(sel_diff[:3]))
     disagree = 0
     dist = {}
     tcache = {}
@@ -646,7 +691,7 @@ def check(run: core.Run) -> int:
             dist["valid_configs"] = dist.get("valid_configs", 0) + 1
             all_ok = True
             for k, (H, W) in enumerate(c["inputs"]):
-                if H % c["cfg"]["max_stride"] or W % c["cfg"]["max_stride"]:
+                if not in_domain(c, H, W):
                     dist["calls_outside_domain"] = dist.get("calls_outside_domain", 0) + 1
                     continue                            # outside the property's domain: correspondence only
                 in_domain_calls += 1
